@@ -214,6 +214,7 @@ impl<Db: Database> StorageManager<Db> {
         }?;
 
         // Write to the database
+        let generation = self.cache.as_ref().map(|cache| cache.write_generation());
         self.tic_toc(
             METRIC_WRITE_TIME,
             self.db
@@ -226,8 +227,8 @@ impl<Db: Database> StorageManager<Db> {
         crate::verif_hooks::sim_point("fill").await;
         // update the cache, only once the database has accepted the write: otherwise a failed
         // commit leaves the new epoch (and its nodes) being served from the cache
-        if let Some(cache) = &self.cache {
-            cache.batch_put(&records).await;
+        if let (Some(cache), Some(generation)) = (&self.cache, generation) {
+            cache.batch_put_after_write(&records, generation).await;
         }
         Ok(num_records as u64)
     }
@@ -273,6 +274,7 @@ impl<Db: Database> StorageManager<Db> {
         }
 
         // write to the database
+        let generation = self.cache.as_ref().map(|cache| cache.write_generation());
         self.tic_toc(METRIC_WRITE_TIME, self.db.set(record.clone()))
             .await?;
         self.increment_metric(METRIC_SET);
@@ -280,8 +282,10 @@ impl<Db: Database> StorageManager<Db> {
         #[cfg(akd_verif)]
         crate::verif_hooks::sim_point("fill").await;
         // update the cache, only once the database has accepted the write
-        if let Some(cache) = &self.cache {
-            cache.put(&record).await;
+        if let (Some(cache), Some(generation)) = (&self.cache, generation) {
+            cache
+                .batch_put_after_write(slice::from_ref(&record), generation)
+                .await;
         }
         Ok(())
     }
@@ -302,6 +306,7 @@ impl<Db: Database> StorageManager<Db> {
         }
 
         // Write to the database
+        let generation = self.cache.as_ref().map(|cache| cache.write_generation());
         self.tic_toc(
             METRIC_WRITE_TIME,
             self.db.batch_set(records.clone(), DbSetState::General),
@@ -312,8 +317,8 @@ impl<Db: Database> StorageManager<Db> {
         #[cfg(akd_verif)]
         crate::verif_hooks::sim_point("fill").await;
         // update the cache, only once the database has accepted the write
-        if let Some(cache) = &self.cache {
-            cache.batch_put(&records).await;
+        if let (Some(cache), Some(generation)) = (&self.cache, generation) {
+            cache.batch_put_after_write(&records, generation).await;
         }
         Ok(())
     }
@@ -347,13 +352,16 @@ impl<Db: Database> StorageManager<Db> {
                 return Ok(result);
             }
         }
+        let generation = self.cache.as_ref().map(|cache| cache.write_generation());
 
         let record = self.get_direct::<St>(id).await?;
         #[cfg(akd_verif)]
         crate::verif_hooks::sim_point("fill").await;
-        if let Some(cache) = &self.cache {
-            // cache the result
-            cache.put(&record).await;
+        if let (Some(cache), Some(generation)) = (&self.cache, generation) {
+            // cache the result, unless a write or flush happened since the cache was consulted
+            cache
+                .batch_put_if_unchanged(slice::from_ref(&record), generation)
+                .await;
         }
         Ok(record)
     }
@@ -389,15 +397,18 @@ impl<Db: Database> StorageManager<Db> {
 
         // cache miss, read direct from db
         self.increment_metric(METRIC_GET);
+        let generation = self.cache.as_ref().map(|cache| cache.write_generation());
 
         let record = self
             .tic_toc(METRIC_READ_TIME, self.db.get::<St>(id))
             .await?;
         #[cfg(akd_verif)]
         crate::verif_hooks::sim_point("fill").await;
-        if let Some(cache) = &self.cache {
-            // cache the result
-            cache.put(&record).await;
+        if let (Some(cache), Some(generation)) = (&self.cache, generation) {
+            // cache the result, unless a write or flush happened since the cache was consulted
+            cache
+                .batch_put_if_unchanged(slice::from_ref(&record), generation)
+                .await;
         }
         Ok(record)
     }
@@ -444,15 +455,16 @@ impl<Db: Database> StorageManager<Db> {
         if !key_set.is_empty() {
             // these are items to be retrieved from the backing database (not in pending transaction or in the object cache)
             let keys = key_set.into_iter().collect::<Vec<_>>();
+            let generation = self.cache.as_ref().map(|cache| cache.write_generation());
             let mut results = self
                 .tic_toc(METRIC_READ_TIME, self.db.batch_get::<St>(&keys))
                 .await?;
 
             #[cfg(akd_verif)]
             crate::verif_hooks::sim_point("fill").await;
-            // cache the db returned results
-            if let Some(cache) = &self.cache {
-                cache.batch_put(&results).await;
+            // cache the db returned results, unless a write or flush happened since the cache was consulted
+            if let (Some(cache), Some(generation)) = (&self.cache, generation) {
+                cache.batch_put_if_unchanged(&results, generation).await;
             }
 
             records.append(&mut results);
@@ -508,6 +520,7 @@ impl<Db: Database> StorageManager<Db> {
     ) -> Result<ValueState, StorageError> {
         #[cfg(akd_verif)]
         crate::verif_hooks::sim_point("get_user_state").await;
+        let generation = self.cache.as_ref().map(|cache| cache.write_generation());
         let maybe_db_state = match self
             .tic_toc(METRIC_READ_TIME, self.db.get_user_state(username, flag))
             .await
@@ -539,9 +552,14 @@ impl<Db: Database> StorageManager<Db> {
         }
 
         if let Some(state) = maybe_db_state {
-            // cache the item for future access
-            if let Some(cache) = &self.cache {
-                cache.put(&DbRecord::ValueState(state.clone())).await;
+            // cache the item for future access, unless a write or flush happened since the read began
+            if let (Some(cache), Some(generation)) = (&self.cache, generation) {
+                cache
+                    .batch_put_if_unchanged(
+                        slice::from_ref(&DbRecord::ValueState(state.clone())),
+                        generation,
+                    )
+                    .await;
             }
 
             Ok(state)
